@@ -360,6 +360,9 @@ def _check_fuse(ctx, model):
                "the id generator is not seeded with the ids of all first-stream "
                "statements (unfiltered)")
     # the fused stream
+    if S[0] == "binop" and S[1] == "Add" and S[3][0] == "seq" and not S[3][4]:
+        # first.extend([f(x) for x in src])  ==  for x in src: first.append(f(x))
+        S = ("extend", S[2], S[3][2], S[3][3])
     if S[0] != "extend":
         raise AnalysisError("fuse: first result is not <first stream> extended "
                             "in a loop")
@@ -593,27 +596,36 @@ def _check_closure_loop(ctx, model):
     UT = "pymbolic.imperative.utils"
     m, fn = model.func(f"{UT}:get_dot_dependency_graph")
     loc = m.loc(fn)
-    loops = [w for w in ast.walk(fn) if isinstance(w, ast.While)
-             and isinstance(w.test, ast.Constant) and w.test.value is True]
+    fn = model.inlined(fn)
+    loops = [w for w in ast.walk(fn) if isinstance(w, ast.While)]
     if not loops:
         _single_sweep_closure(ctx, m, fn)
         return
     if len(loops) != 1:
         raise AnalysisError("get_dot_dependency_graph: fixed-point loop not found")
     w = loops[0]
-    # the flag: the name tested by 'if not <flag>: break'
     flag = None
-    for st in w.body:
-        if isinstance(st, ast.If) and st.body and isinstance(st.body[0], ast.Break) \
-                and isinstance(st.test, ast.UnaryOp) and isinstance(
-                st.test.op, ast.Not) and isinstance(st.test.operand, ast.Name):
-            flag = st.test.operand.id
-            exit_idx = w.body.index(st)
-    ok_exit = flag is not None and exit_idx == len(w.body) - 1
+    if isinstance(w.test, ast.Constant) and w.test.value is True:
+        # while True: ...; if not <flag>: break
+        for st in w.body:
+            if isinstance(st, ast.If) and st.body and isinstance(
+                    st.body[0], ast.Break) and isinstance(
+                    st.test, ast.UnaryOp) and isinstance(
+                    st.test.op, ast.Not) and isinstance(st.test.operand,
+                                                        ast.Name):
+                flag = st.test.operand.id
+                exit_idx = w.body.index(st)
+        ok_exit = flag is not None and exit_idx == len(w.body) - 1
+    elif isinstance(w.test, ast.Name):
+        # <flag> = True; while <flag>: <flag> = False; ...
+        flag = w.test.id
+        ok_exit = not any(isinstance(n_, ast.Break) for n_ in ast.walk(w))
+    else:
+        raise AnalysisError("get_dot_dependency_graph: fixed-point loop test "
+                            f"'{ast.unparse(w.test)}' not recognised")
     ctx.ob("P/closure/exit-only-when-unchanged", ok_exit, loc,
            "the loop ends only after a sweep that changed nothing" if ok_exit else
-           "the closure loop does not end with 'if not <changed>: break' as its "
-           "last statement")
+           "the closure loop can end although the last sweep changed something")
     if flag is None:
         return
     first = w.body[0]
